@@ -88,6 +88,9 @@ func (p *Pool) Put(x any) {
 	yield(opPoolPut, unsafe.Pointer(p))
 	d := digest(x)
 	raceReleaseMerge(poolRaceAddr(x))
+	if schedActive() {
+		markReleased(x, poolRaceAddr(x))
+	}
 	p.put(x, d)
 }
 
